@@ -11,10 +11,15 @@
    every failure path and clear the parser state; write nothing to a RIB before the file is known to
    be valid; /repo f8577ca 9c55346 af12ba1); `repaired` also keeps the withdraws owed to a session that
    has not come up since an earlier reload; `rollback_only` has the first repair only.
+   `repaired_chain` (/repo f9b5d54) also keeps them; `repaired` moreover takes the routes removed by a
+   re-establishing reload out of the Adj-RIB-Out at once (fix_eager).
+   gen/Gen_MainShape.v (translator T13, regenerated from the ast of Peer._main on every run) says whether
+   Peer._main forgets Neighbor.previous after replace_restart / replace_reload: the invariant proofs
+   below only go through when it does.
    The model has ONE "session down" state: the code is required (harness) to behave alike in IDLE,
    ACTIVE, CONNECT, OPENSENT and OPENCONFIRM. *)
 From Coq Require Import ZArith Bool List.
-From ExaV Require Import lib.Amap model.Model_Rib proofs.Proofs_Rib model.Model_Reload proofs.Proofs_Reload.
+From ExaV Require Import lib.Amap model.Model_Rib proofs.Proofs_Rib gen.Gen_MainShape model.Model_Reload proofs.Proofs_Reload.
 Import ListNotations.
 Open Scope Z_scope.
 
@@ -97,6 +102,29 @@ Theorem C17_reload_composes_refuted_without_chain :
     forall b, aget Z.eqb n (ribs (fst (reload repaired_failure s (Parsed cfg)))) = Some b ->
       goal b k <> diffed (prev_routes s n) (nroutes c) k (goal (get_nb n (ribs s)) k).
 Proof. exact reload_composes_refuted_without_chain. Qed.
+
+(* ---------------------------------------------------------------- every history *)
+
+(* EVERY history - reloads that parse or fail, any number in a row, API announcements and withdrawals
+   (also of routes a reload removed), flushes, generator starts and single elements sent, session losses
+   and establishments, in any order - on the tree with all four repairs and a Peer._main that forgets
+   Neighbor.previous once used: whenever the session of n is established and its RIB drained, the peer
+   holds for prefix k exactly the value computed from the files and the API operations alone
+   (spec_run: the new file wins, what the replaced file had and the new one has not is gone, an API
+   operation sets or removes, a failed reload changes nothing, a removed neighbor holds nothing). *)
+Theorem C17_history : forall fx ops n k b, all_fixed fx -> forallb simple_rop ops = true ->
+  aget Z.eqb n (ribs (run_r fx ops st0)) = Some b -> up (nsys b) = true -> drained (r (nsys b)) ->
+  aget Z.eqb k (peer (nsys b)) = snd (spec_run n k ops).
+Proof. exact history. Qed.
+
+(* refuted on the tree without the fourth repair (what /repo is): a reload changes a session parameter
+   and removes prefix 2; the API announces prefix 2 before the session is back; at establishment it is
+   withdrawn together with what the reload removed *)
+Theorem C17_history_refuted_without_eager :
+  exists ops n k b, forallb simple_rop ops = true /\
+    aget Z.eqb n (ribs (run_r repaired_chain ops st0)) = Some b /\ up (nsys b) = true /\ drained (r (nsys b)) /\
+    aget Z.eqb k (peer (nsys b)) <> snd (spec_run n k ops).
+Proof. exact history_refuted_without_eager. Qed.
 
 (* ---------------------------------------------------------------- failed reload *)
 
@@ -190,3 +218,5 @@ Print Assumptions C17_steady_after_reload.
 Print Assumptions C17_steady_after_ribop.
 Print Assumptions C17_peer_reaches_goal.
 Print Assumptions C17_reload_composes_refuted_without_chain.
+Print Assumptions C17_history.
+Print Assumptions C17_history_refuted_without_eager.
